@@ -151,6 +151,42 @@ def normalize_range_chunks(events, env):
     return out
 
 
+def normalize_noop_clamps(events, env, m1):
+    """`min(x, L)` where `x <= L` is known at the access (a defensive clamp of an index that the reservation helper has
+    already bounded: `let b = b.min(len)`) is x; likewise `max(x, y)` with `x <= y` known is y. Applied to the operands of
+    storage accesses, views and range chunks only, with the facts of the access itself."""
+    import copy
+    out = []
+    for e in events:
+        acc = (e.kind == "call" and e.info.get("model") in ("index", "slice_get", "ptr_add", "Iterator::map")) or is_view(e)
+        if not acc or not any(x[0] == "call" and x[1] in ("min", "max") for a in e.args if isinstance(a, tuple) for x in subterms(a)):
+            out.append(e)
+            continue
+        p = cprover(m1, env, e)
+
+        def f(x):
+            if x[0] == "call" and x[1] in ("min", "max") and len(x[2]) == 2:
+                a, b = m1.canon(unref(x[2][0])), m1.canon(unref(x[2][1]))
+                if a[0] == "int" or b[0] == "int":
+                    return None
+                # only clamps of a value against something it is *strictly known* not to exceed by a guard fact
+                for lo, hi, keep_lo in ((a, b, x[2][0]), (b, a, x[2][1])):
+                    known = any(len(g) == 3 and g[0] in ("lt", "le") and m1.canon(unref(g[1])) == lo and m1.canon(unref(g[2])) == hi
+                                for g in list(p.facts) + [h for v in p.payload_facts.values() for h in v])
+                    if known:
+                        return keep_lo if x[1] == "min" else (x[2][1] if keep_lo is x[2][0] else x[2][0])
+            return None
+        na = tuple(rewrite(a, f) if isinstance(a, tuple) and a and isinstance(a[0], str) else a for a in e.args)
+        if na != tuple(e.args):
+            e2 = copy.copy(e)
+            e2.info = dict(e.info)
+            e2.args = na
+            out.append(e2)
+        else:
+            out.append(e)
+    return out
+
+
 def normalize_views(events, m1):
     """The length of an owning view `{ptr + b, len}` in one form: `E.saturating_sub(b)` is `E - b` (that the difference
     does not underflow is an OVF / CLAMP matter), and a clamp applied twice to the same length is applied once
@@ -173,6 +209,14 @@ def normalize_views(events, m1):
             ln = rewrite(unref(e.args[1]), f)
             if ln[0] == "call" and ln[1] == "saturating_sub" and len(ln[2]) == 2:
                 ln = ("bin", "Sub", ln[2][0], ln[2][1])
+            if ln[0] == "bin" and ln[1] == "Sub":
+                # `max(E, b) - b` is the length of the same extent (empty when E <= b)
+                mx, sb = unref(ln[2]), unref(ln[3])
+                if mx[0] == "call" and mx[1] == "max" and len(mx[2]) == 2:
+                    for x, y in ((mx[2][0], mx[2][1]), (mx[2][1], mx[2][0])):
+                        if unref(y) == sb:
+                            ln = ("bin", "Sub", x, ln[3])
+                            break
             if ln != unref(e.args[1]):
                 e2 = copy.copy(e)
                 e2.info = dict(e.info)
@@ -205,6 +249,7 @@ class Unit:
             for e in env.flat_events(b, self_adt, world):
                 self.events.append(e)
         self.events = normalize_views(normalize_range_chunks(normalize_accesses(self.events), env), m1)
+        self.events = normalize_noop_clamps(self.events, env, m1)
         self.label = "%s|%s" % (world["name"], kind)
 
     def result(self):
@@ -288,6 +333,14 @@ class M1:
                     return ("LEN", adt, root, tuple(pre))
             if x[0] == "call" and x[1] == "conv" and x[2] and x[2][0][0] in ("int",):
                 return x[2][0]
+            if x[0] == "phi" and len(x[1]) == 2 and ("int", 0) in x[1]:
+                # `match .. { small => L - c, _ => 0 }` with the 0 chosen only where L <= c is known: saturating_sub(L, c)
+                o = [y for y in x[1] if y != ("int", 0)]
+                if len(o) == 1 and o[0][0] == "bin" and o[0][1] == "Sub":
+                    a_, b_ = unref(o[0][2]), unref(o[0][3])
+                    for g in self.env.ev.option_facts.get((x, ("int", 0)), []):
+                        if len(g) == 3 and g[0] in ("lt", "le") and unref(g[1]) == a_ and unref(g[2]) == b_:
+                            return ("call", "saturating_sub", (f(o[0][2]) or o[0][2], f(o[0][3]) or o[0][3]))
             return None
         return rewrite(t, f)
 
@@ -691,10 +744,36 @@ class CProver(Prover):
         return False
 
 
+def elim_noop_clamps(facts):
+    """facts with `min(x, L)` replaced by x (and `max(x, y)` by y) wherever another fact of the same set says x < L / x <= L
+    (x <= y): the guard facts of a block often mention a defensively clamped copy of a value they also bound"""
+    order = {(unref(f[1]), unref(f[2])) for f in facts if len(f) == 3 and f[0] in ("lt", "le")
+             and isinstance(f[1], tuple) and isinstance(f[2], tuple)}
+    if not order:
+        return facts
+
+    def g(x):
+        if x[0] == "call" and x[1] in ("min", "max") and len(x[2]) == 2:
+            a, b = unref(x[2][0]), unref(x[2][1])
+            if (a, b) in order:
+                return x[2][0] if x[1] == "min" else x[2][1]
+            if (b, a) in order:
+                return x[2][1] if x[1] == "min" else x[2][0]
+        return None
+    out = []
+    for f in facts:
+        nf = tuple(rewrite(x, g) if isinstance(x, tuple) and x and isinstance(x[0], str) else x for x in f)
+        out.append(nf)
+        if nf != f:
+            out.append(f)
+    return out
+
+
 def cprover(m, env, e, extra=()):
     def cf(f):
         return tuple(m.canon(x) if isinstance(x, tuple) and x and isinstance(x[0], str) else x for x in f)
-    facts = [cf(f) for f in env.event_facts(e)] + [cf(f) for f in extra]
+    from guards import derive_satsub
+    facts = elim_noop_clamps(derive_satsub([cf(f) for f in env.event_facts(e)] + [cf(f) for f in extra]))
     pf = {}
     for k, v in env.ev.payload_facts.items():
         pf[m.canon(k)] = [cf(f) for f in v]
@@ -970,7 +1049,8 @@ def rule_nonempty(env, shared):
                         ret_ok = False
             for (bi, s, agg, ub, uctx) in blocks:
                 loc = ub.file_line(s["loc"])
-                facts = [tuple(m.canon(x) if isinstance(x, tuple) else x for x in f) for f in block_facts(ev, uctx, bi)]
+                facts = elim_noop_clamps([tuple(m.canon(x) if isinstance(x, tuple) else x for x in f)
+                                          for f in block_facts(ev, uctx, bi)])
                 good = False
                 why = ""
                 if kind == "ticket":
@@ -1503,7 +1583,8 @@ def rule_complete(env, shared):
                 if K != "None":
                     continue
                 n += 1
-                fs = [tuple(m.canon(x) if isinstance(x, tuple) else x for x in f) for f in fs0]
+                from guards import derive_satsub
+                fs = derive_satsub([tuple(m.canon(x) if isinstance(x, tuple) else x for x in f) for f in fs0])
                 # ... or under LEN <= a value *loaded* from the position counter: the counter never decreases on a pull
                 # path (ATOM), so nothing inside the source is reserved on this path at all
                 okk = any(f[0] == "le" and len(f) == 3 and f[1] == Lc and f[2][0] == "atomic" and f[2][1] in ("fetch_add", "load")
